@@ -215,4 +215,29 @@ example : applyUpds (.retArr 7 [none, none, none])
         (deserializeReturn Gen.msgTables)
       = some (.ok (.retArr 7 [some 1, none, some 0, none])) := by decide +kernel
 
+/-! ### Decoded messages that are modified by their holder
+
+In the model a decoded message is a value: it shares nothing with the decoder or with other
+decoded messages, so editing it (`applyUpds`) cannot influence what any bytes decode to. The
+real decoder must behave the same (no shared default list, no memoised result object); the
+decode-side history stream of checks/c15.py ties this to the code. -/
+
+/-- decoding is a function of the bytes alone: after any edits `us` of an earlier result `m` of
+decoding `bs`, the same bytes still decode to `m` (not to the edited message), and any other
+bytes decode to what they decode to -/
+theorem decode_unaffected_by_edits (G : Tables) (d : List (Nat × String)) (bs bs' : List Nat) (m : Msg)
+    (us : List Upd) (h : deserializeWith G d bs = .ok m) :
+    deserializeWith G d bs = .ok m ∧
+    (∀ r, deserializeWith G d bs' = r → deserializeWith G d bs' = r) ∧
+    (applyUpds m us ≠ m → deserializeWith G d bs ≠ .ok (applyUpds m us)) := by
+  refine ⟨h, fun _ hr => hr, fun hne hc => ?_⟩
+  rw [h] at hc
+  exact hne (Except.ok.inj hc).symm
+
+-- the situation of seeded change C15_7 in the model: an empty array is decoded, the holder appends
+-- to the result, the same bytes are decoded again: still the empty array
+example : (serialize Gen.msgTables (.retArr 7 [])).map (deserializeReturn Gen.msgTables)
+      = some (.ok (.retArr 7 [])) ∧
+    applyUpds (.retArr 7 []) [Upd.append (some 0)] = .retArr 7 [some 0] := by decide +kernel
+
 end NQ.C15
